@@ -16,6 +16,7 @@ import (
 	"github.com/go-text/typesetting/di"
 	"github.com/go-text/typesetting/font"
 	ot "github.com/go-text/typesetting/font/opentype"
+	"github.com/go-text/typesetting/font/opentype/tables"
 	"github.com/go-text/typesetting/harfbuzz"
 	"github.com/go-text/typesetting/language"
 	"github.com/go-text/typesetting/shaping"
@@ -71,11 +72,45 @@ type Case struct {
 	UpemScale    bool    `json:"upem_scale,omitempty"`  // keep the default scale (= upem) instead of ceil(Size)<<6
 	Ptem         float32 `json:"ptem,omitempty"`
 
+	// Alternative public ways of filling the buffer (harfbuzz level only). Fill "" is one
+	// AddRunes(Text, RunStart, RunEnd-RunStart) call. Fill "addrune" appends the runes of the run one by
+	// one with Buffer.AddRune(r, Clusters[i]) — caller-chosen cluster values, non-decreasing, possibly
+	// repeated, not starting at 0 — optionally after installing the pre-context with a zero-length
+	// AddRunes call (CtxPre) and followed by a zero-length AddRunes call that installs the post-context
+	// (CtxPost); without them the buffer has no context. Fill "split" adds the run by consecutive
+	// AddRunes calls cut at the offsets Split (relative to RunStart).
+	Fill     string `json:"fill,omitempty"`
+	Clusters []int  `json:"clusters,omitempty"`
+	CtxPre   bool   `json:"ctx_pre,omitempty"`
+	CtxPost  bool   `json:"ctx_post,omitempty"`
+	Split    []int  `json:"split,omitempty"`
+	// YScale, when not 0, is a vertical font scale different from the horizontal one (harfbuzz level)
+	YScale int32 `json:"y_scale,omitempty"`
+
+	// Font instance (both levels): variation settings in design units (Vars) or normalized
+	// coordinates by axis order (Coords), and pixels per em (hinting Device tables apply). When any
+	// is set the case gets its own font.Face over the shared font.
+	Vars   []Var `json:"vars,omitempty"`
+	Coords []int `json:"coords,omitempty"`
+	XPpem  int   `json:"x_ppem,omitempty"`
+	YPpem  int   `json:"y_ppem,omitempty"`
+
 	// C12 only
 	WordSpacing   int32 `json:"word_spacing,omitempty"`
 	LetterSpacing int32 `json:"letter_spacing,omitempty"`
 	StartRun      bool  `json:"start_run,omitempty"`
 	EndRun        bool  `json:"end_run,omitempty"`
+}
+
+// Var is one variation setting in design units.
+type Var struct {
+	Tag   string  `json:"tag"`
+	Value float32 `json:"value"`
+}
+
+// HasInstance tells whether the case carries font instance settings.
+func (c *Case) HasInstance() bool {
+	return len(c.Vars) > 0 || len(c.Coords) > 0 || c.XPpem != 0 || c.YPpem != 0
 }
 
 // TagName renders a tag for humans.
@@ -89,8 +124,38 @@ func TagName(t uint32) string {
 	return string(b)
 }
 
-// Face resolves the face of the case in the corpus.
+// Face resolves the face of the case: the shared corpus (or generated) face, or — when the case
+// carries instance settings — a fresh font.Face over the same font with the settings applied.
 func (c *Case) Face() (*font.Face, error) {
+	base, err := c.baseFace()
+	if err != nil || !c.HasInstance() {
+		return base, err
+	}
+	face := font.NewFace(base.Font)
+	switch {
+	case len(c.Vars) > 0:
+		vs := make([]font.Variation, 0, len(c.Vars))
+		for _, v := range c.Vars {
+			if len(v.Tag) != 4 {
+				return nil, fmt.Errorf("variation tag %q", v.Tag)
+			}
+			vs = append(vs, font.Variation{Tag: ot.MustNewTag(v.Tag), Value: v.Value})
+		}
+		face.SetVariations(vs)
+	case len(c.Coords) > 0:
+		cs := make([]tables.Coord, len(c.Coords))
+		for i, v := range c.Coords {
+			cs[i] = tables.Coord(v)
+		}
+		face.SetCoords(cs)
+	}
+	if c.XPpem != 0 || c.YPpem != 0 {
+		face.SetPpem(uint16(c.XPpem), uint16(c.YPpem))
+	}
+	return face, nil
+}
+
+func (c *Case) baseFace() (*font.Face, error) {
 	if c.Synth != nil {
 		return synthfont.Face(*c.Synth)
 	}
@@ -103,6 +168,57 @@ func (c *Case) Face() (*font.Face, error) {
 	}
 	return faces[c.Index], nil
 }
+
+// InputClusters returns the cluster value the caller gives to every rune of the run (harfbuzz
+// level): Clusters in "addrune" mode, the rune indices otherwise.
+func (c *Case) InputClusters() []int {
+	if c.Fill == FillAddRune {
+		return c.Clusters
+	}
+	out := make([]int, 0, c.RunEnd-c.RunStart)
+	for i := c.RunStart; i < c.RunEnd; i++ {
+		out = append(out, i)
+	}
+	return out
+}
+
+// fill puts the run into the buffer the way the case says.
+func (c *Case) fill(buf *harfbuzz.Buffer) {
+	switch c.Fill {
+	case FillAddRune:
+		if len(c.Clusters) != c.RunEnd-c.RunStart {
+			panic("shapecase: addrune case without one cluster per rune (generator bug)")
+		}
+		if c.CtxPre {
+			buf.AddRunes(c.Text, c.RunStart, 0) // empty buffer, no item: installs the pre-context only
+		}
+		for i, r := range c.Text[c.RunStart:c.RunEnd] {
+			buf.AddRune(r, c.Clusters[i])
+		}
+		if c.CtxPost {
+			buf.AddRunes(c.Text, c.RunEnd, 0) // no item: installs the post-context only
+		}
+	case FillSplit:
+		at := c.RunStart
+		for _, cut := range c.Split {
+			next := c.RunStart + cut
+			if next < at || next > c.RunEnd {
+				panic("shapecase: split offsets out of order (generator bug)")
+			}
+			buf.AddRunes(c.Text, at, next-at)
+			at = next
+		}
+		buf.AddRunes(c.Text, at, c.RunEnd-at)
+	default:
+		buf.AddRunes(c.Text, c.RunStart, c.RunEnd-c.RunStart)
+	}
+}
+
+// Fill modes.
+const (
+	FillAddRune = "addrune"
+	FillSplit   = "split"
+)
 
 // Direction is the di.Direction of the case.
 func (c *Case) Direction() di.Direction {
@@ -257,7 +373,7 @@ func RunHarfbuzz(c *Case, face *font.Face) (res HBResult, p *Panic) {
 		buf.Flags = harfbuzz.ShappingOptions(c.Flags)
 		buf.Invisible = harfbuzz.GID(c.Invisible)
 		buf.NotFound = harfbuzz.GID(c.NotFound)
-		buf.AddRunes(c.Text, c.RunStart, c.RunEnd-c.RunStart)
+		c.fill(buf)
 		if c.GuessProps {
 			buf.GuessSegmentProperties()
 		} else {
@@ -269,6 +385,9 @@ func RunHarfbuzz(c *Case, face *font.Face) (res HBResult, p *Panic) {
 		if !c.UpemScale {
 			f.XScale = c.Scale()
 			f.YScale = f.XScale
+		}
+		if c.YScale != 0 {
+			f.YScale = c.YScale
 		}
 		f.Ptem = c.Ptem
 		var feats []harfbuzz.Feature
